@@ -11,6 +11,11 @@
 //!     of the written bytes, every printable cell of a text exactly once and in reading order on a
 //!     surface of the size the text's own layout reported, no-wrap drops exactly the cells beyond
 //!     the right edge, layout at every width between the reported and the available one agrees.
+#[path = "c04/dumps.rs"]
+mod dumps;
+#[path = "c04/events.rs"]
+mod events;
+
 use serde_json::{Value, json};
 use std::collections::HashMap;
 use std::io::Write as _;
@@ -26,26 +31,19 @@ use surf_n_term::{
 use verif_harness::{Cfg, r#gen::Rng, guarded, out::Out, out::hex};
 
 // ---------------------------------------------------------------------------------------------
-// characters and their unicode width (Unicode East Asian Width / general category; fixed table,
-// NOT read from the implementation)
+// characters used by the generators (narrow, wide, zero width)
 // ---------------------------------------------------------------------------------------------
 const NARROW: [char; 8] = ['a', 'b', 'c', 'x', '|', '.', 'é', 'Ж'];
 const WIDE: [char; 3] = ['世', '界', '😀'];
 const ZERO: [char; 2] = ['\u{0301}', '\u{200b}'];
 
-/// characters whose width the table below knows
-fn known_char(c: char) -> bool {
-    NARROW.contains(&c) || WIDE.contains(&c) || ZERO.contains(&c) || (c as u32) < 0x80
-}
-
+/// unicode width of a character as the implementation sees it (`Cell::size` of a character cell, i.e.
+/// `unicode-width`): the widths are an input of the property, not part of it — model and oracles use the
+/// same numbers, so a bump of the `unicode-width` crate changes nothing here
 fn width_of(c: char) -> usize {
-    if WIDE.contains(&c) {
-        2
-    } else if ZERO.contains(&c) || (c as u32) < 0x20 || c as u32 == 0x7f {
-        0
-    } else {
-        1
-    }
+    static CTX: std::sync::OnceLock<ViewContext> = std::sync::OnceLock::new();
+    let ctx = CTX.get_or_init(|| make_ctx(true, (1, 1)));
+    Cell::new_char(Face::default(), c).size(ctx).width
 }
 
 // ---------------------------------------------------------------------------------------------
@@ -454,6 +452,10 @@ struct Case {
     mode: String,
     max_h: usize,
     max_w: usize,
+    /// text: minimum of the constraint, position of the layout inside the view
+    min_h: usize,
+    min_w: usize,
+    pos: (usize, usize),
     /// text: the view is larger than the reported size (the layout clips it)
     loose_view: bool,
 }
@@ -475,6 +477,9 @@ impl Case {
             mode: "w".into(),
             max_h: 1000,
             max_w: 1,
+            min_h: 0,
+            min_w: 0,
+            pos: (0, 0),
             loose_view: false,
         }
     }
@@ -485,6 +490,7 @@ impl Case {
             "cur": [self.cur.0, self.cur.1], "cells": cells_tok(&self.cells), "bytes": hex(&self.bytes),
             "text": String::from_utf8_lossy(&self.bytes), "parts": self.parts, "mode": self.mode,
             "max_h": self.max_h.to_string(), "max_w": self.max_w.to_string(), "loose_view": self.loose_view,
+            "min_h": self.min_h.to_string(), "min_w": self.min_w.to_string(), "pos": [self.pos.0, self.pos.1],
         })
     }
     fn from_json(v: &Value) -> Option<Case> {
@@ -509,6 +515,9 @@ impl Case {
             mode: v["mode"].as_str()?.into(),
             max_h: v["max_h"].as_str()?.parse().ok()?,
             max_w: v["max_w"].as_str()?.parse().ok()?,
+            min_h: v["min_h"].as_str().and_then(|x| x.parse().ok()).unwrap_or(0),
+            min_w: v["min_w"].as_str().and_then(|x| x.parse().ok()).unwrap_or(0),
+            pos: (v["pos"][0].as_u64().unwrap_or(0) as usize, v["pos"][1].as_u64().unwrap_or(0) as usize),
             loose_view: v["loose_view"].as_bool()?,
         })
     }
@@ -517,6 +526,12 @@ impl Case {
     }
     fn ctx(&self) -> ViewContext {
         make_ctx(self.glyphs, self.ppc)
+    }
+    fn ct(&self) -> BoxConstraint {
+        BoxConstraint::new(Size::new(self.min_h, self.min_w), Size::new(self.max_h, self.max_w))
+    }
+    fn ct_tok(&self) -> String {
+        format!("{},{},{},{}", self.min_h, self.min_w, self.max_h, self.max_w)
     }
 }
 
@@ -769,12 +784,17 @@ impl Ctx {
         }
         if case.max_w <= 64 {
             for w2 in size.width..=case.max_w {
-                if let Ok((s2, _, ps2)) = real_layout(&ctx, &case.cells, w2, case.wraps) {
-                    if ps2 != ps || s2 != size {
-                        self.fail("layout at a width between the reported and the available width differs", case, json!(ans), json!(format!("at width {w2}: {}x{} {}", s2.height, s2.width, join_s(&ps2.iter().map(|p| pos_tok(*p)).collect::<Vec<_>>()))));
-                        return;
-                    }
+                // (agreement at the widths in between is a lemma of the model, `C09_layout_agrees`: the
+                // implementation's layout at these widths is compared with the model, not judged)
+                if w2 == case.max_w {
+                    continue;
                 }
+                let req2 = format!("c09 layout {} {} {} {} {}", case.ctx_tok(), case.wraps as u8, widths, w2, kinds);
+                let ans2 = match real_layout(&ctx, &case.cells, w2, case.wraps) {
+                    Err(()) => "panic".to_string(),
+                    Ok((s2, c2, ps2)) => format!("{}x{} cur={}.{} {}", s2.height, s2.width, c2.row, c2.col, join_s(&ps2.iter().map(|p| pos_tok(*p)).collect::<Vec<_>>())),
+                };
+                self.out.corr(&req2, &ans2);
             }
             // wrapping: every printable cell gets a position; no wrapping: exactly those whose right edge fits
             let got: Vec<K> = case.cells.iter().zip(ps.iter()).filter(|(_, p)| p.is_some()).map(|(c, _)| c.k.clone()).collect();
@@ -793,11 +813,11 @@ impl Ctx {
     fn eval_tlayout(&mut self, case: &Case) {
         let ctx = case.ctx();
         let widths = widths_tok(cells_chars(&case.cells).into_iter());
-        let req = format!("c09 tlayout {} {} {} {} {} {}", case.ctx_tok(), case.wraps as u8, widths, case.max_h, case.max_w, cells_tok(&case.cells));
+        let req = format!("c09 tlayout {} {} {} {} {}", case.ctx_tok(), case.wraps as u8, widths, case.ct_tok(), cells_tok(&case.cells));
         let res = guarded(|| {
             let text = build_text(case);
             let mut store = ViewLayoutStore::new();
-            text.layout_new(&ctx, BoxConstraint::loose(Size::new(case.max_h, case.max_w)), &mut store).map(|l| l.size()).map_err(|e| format!("{e}"))
+            text.layout_new(&ctx, case.ct(), &mut store).map(|l| l.size()).map_err(|e| format!("{e}"))
         });
         let ans = match &res {
             Err(()) => "panic".to_string(),
@@ -1009,6 +1029,19 @@ impl Ctx {
                     (ct.clone(), format!("cur={}.{} {}", cur.0, cur.1, ct))
                 }
             };
+            // the whole byte path of `tty_writer()` in the model: tokenizer over the dumped command automaton,
+            // payload decoding, the writer — fed the same chunks
+            if i < 2 || i + 1 == case.parts.len() || i % 61 == 7 {
+                let req = format!(
+                    "c09 ttys {} {} {} {} {} {} {} {}",
+                    case.h, case.w, chain_tok(&case.steps), case.ctx_tok(), case.wraps as u8, case.wface.tok(), widths_tok(chars.iter().cloned()), chunks_tok(&chunks)
+                );
+                let full = match &res {
+                    Err(()) => "panic".to_string(),
+                    Ok((rs, _, _)) => format!("{} {}", rs.iter().map(|r| if *r { "ok" } else { "err" }).collect::<Vec<_>>().join(","), ans),
+                };
+                self.out.corr(&req, &full);
+            }
             if i == 0 && cmds.is_ok() {
                 let req = format!(
                     "c09 cmds {} {} {} {} {} {} {} {}",
@@ -1025,17 +1058,11 @@ impl Ctx {
                     self.fail("write panics", &c1, json!("no panic"), json!("panic"));
                     return;
                 }
-                Ok((rs, _, canvas)) => {
+                Ok((_, _, canvas)) => {
                     if let Some(o) = outside_changed(canvas, &win) {
                         let mut c1 = case.clone();
                         c1.parts = vec![part.clone()];
                         self.fail("write modified a cell outside of the surface the writer was given", &c1, json!("sentinel"), json!(format!("canvas offset {o}")));
-                        return;
-                    }
-                    if rs.iter().any(|r| !*r) {
-                        let mut c1 = case.clone();
-                        c1.parts = vec![part.clone()];
-                        self.fail("tty_writer write did not accept the whole buffer", &c1, json!("Ok(len)"), json!("error or short write"));
                         return;
                     }
                 }
@@ -1060,14 +1087,23 @@ impl Ctx {
         let ctx = case.ctx();
         let is_str = case.op == "str";
         let string: String = case.cells.iter().filter_map(|c| if let K::Ch(ch) = c.k { Some(ch) } else { None }).collect();
-        let ct = BoxConstraint::loose(Size::new(case.max_h, case.max_w));
+        let ct = case.ct();
         let mut size = (0, 0);
+        let mut tracked_h = 0;
         let res = guarded(|| {
             let text = build_text(case);
             let view: &dyn View = if is_str { &string } else { &text };
             let mut store = ViewLayoutStore::new();
-            let layout = view.layout_new(&ctx, ct, &mut store).map_err(|e| format!("layout: {e}"))?;
+            // height the text needs under this width (precondition of the completeness oracle)
+            {
+                let mut store2 = ViewLayoutStore::new();
+                if let Ok(l) = view.layout_new(&ctx, BoxConstraint::loose(Size::new(100_000, case.max_w)), &mut store2) {
+                    tracked_h = l.size().height;
+                }
+            }
+            let mut layout = view.layout_new(&ctx, ct, &mut store).map_err(|e| format!("layout: {e}"))?;
             size = (layout.size().height, layout.size().width);
+            layout.set_position(Position::new(case.pos.0, case.pos.1));
             let mut err = None;
             let canvas = on_view(case.h, case.w, &case.steps, &mut |mut s: DynMut<'_>| {
                 if let Err(e) = view.render(&ctx, SurfaceMut::as_mut(&mut s), layout.view()) {
@@ -1082,11 +1118,11 @@ impl Ctx {
         let widths = widths_tok(cells_chars(&case.cells).into_iter());
         let req = if is_str {
             let codes = if string.is_empty() { "-".into() } else { string.chars().map(|c| (c as u32).to_string()).collect::<Vec<_>>().join(",") };
-            format!("c09 str {} {} {} {} {} {} {} {}", case.h, case.w, chain_tok(&case.steps), case.ctx_tok(), widths, case.max_h, case.max_w, codes)
+            format!("c09 str {} {} {} {} {} {} {},{} {}", case.h, case.w, chain_tok(&case.steps), case.ctx_tok(), widths, case.ct_tok(), case.pos.0, case.pos.1, codes)
         } else {
             format!(
-                "c09 text {} {} {} {} {} {} {} {} {}",
-                case.h, case.w, chain_tok(&case.steps), case.ctx_tok(), case.wraps as u8, widths, case.max_h, case.max_w, cells_tok(&case.cells)
+                "c09 text {} {} {} {} {} {} {} {},{} {}",
+                case.h, case.w, chain_tok(&case.steps), case.ctx_tok(), case.wraps as u8, widths, case.ct_tok(), case.pos.0, case.pos.1, cells_tok(&case.cells)
             )
         };
         let ans = match &res {
@@ -1117,11 +1153,23 @@ impl Ctx {
         }
         // completeness: the view has (at least) the reported size, so every printable cell must be there,
         // once, in reading order (a carriage return makes later cells overwrite earlier ones: not judged)
+        // (judged when the constraint's height does not cut the text and the view has room for the
+        // reported size at the layout position)
         let win_h = win.len();
         let win_w = win.first().map(|r| r.len()).unwrap_or(0);
         let has_cr = items.iter().any(|k| *k == K::Ch('\r'));
-        if has_cr || win_h < size.0.min(case.max_h) || win_w < size.1 {
+        if has_cr || tracked_h > case.max_h || win_h < case.pos.0 + size.0 || win_w < case.pos.1 + size.1 {
             return;
+        }
+        // nothing of the view outside of the layout rectangle may change either
+        for (r, row) in win.iter().enumerate() {
+            for (c, &i) in row.iter().enumerate() {
+                let inside = r >= case.pos.0 && r < case.pos.0 + size.0 && c >= case.pos.1 && c < case.pos.1 + size.1;
+                if !inside && canvas[i] != sentinel() {
+                    self.fail("rendering a text modified a cell outside of the rectangle of its layout", case, json!("sentinel"), json!(format!("view position ({r},{c})")));
+                    return;
+                }
+            }
         }
         let mut got: Vec<K> = Vec::new();
         for row in &win {
@@ -1181,11 +1229,22 @@ impl Gen {
             _ => *self.rng.pick(&ZERO),
         }
     }
+    /// fallback string of a glyph: narrow, wide and zero width characters and, now and then, `\n`, `\t`, `\r`
+    /// (without glyph support they are written, and have to be measured, like characters of the text)
     fn fallback(&mut self, max_len: u64) -> String {
         let n = self.rng.below(max_len + 1);
-        (0..n).map(|_| self.plain_char()).collect()
+        let ctl = self.rng.chance(1, 3);
+        (0..n)
+            .map(|_| {
+                if ctl && self.rng.chance(1, 5) {
+                    *self.rng.pick(&['\n', '\n', '\t', '\t', '\r'])
+                } else {
+                    self.plain_char()
+                }
+            })
+            .collect()
     }
-    /// `cr`: carriage returns allowed; `ctl_fb`: control characters inside fallback strings allowed
+    /// `cr`: carriage returns allowed (as cells of their own and inside fallback strings)
     fn cell(&mut self, cr: bool, ppc: (usize, usize)) -> C {
         let f = self.face();
         let k = match self.rng.below(24) {
@@ -1196,7 +1255,8 @@ impl Gen {
             17..=20 => {
                 let h = *self.rng.pick(&[1usize, 1, 1, 2, 3, 0]);
                 let w = *self.rng.pick(&[1usize, 2, 2, 3, 5, 0]);
-                K::Gl(h, w, self.fallback(14))
+                let fb = self.fallback(14);
+                K::Gl(h, w, if cr { fb } else { fb.replace('\r', "\n") })
             }
             _ => {
                 let ch = *self.rng.pick(&[1usize, 1, 2, 3, 0]);
@@ -1301,17 +1361,8 @@ impl Gen {
         out.push(vec![n / 2, 0, n - n / 2]);
         out
     }
-    /// a stream of known characters; `malformed`: damaged somewhere (streams in which the damage happens to
-    /// spell a character outside of the width table are not used)
+    /// a stream of characters; `malformed`: damaged somewhere
     fn utf8_stream(&mut self, n: usize, malformed: bool) -> Vec<u8> {
-        loop {
-            let s = self.utf8_stream_once(n, malformed);
-            if String::from_utf8_lossy(&s).chars().all(|c| c == '\u{fffd}' || known_char(c)) {
-                return s;
-            }
-        }
-    }
-    fn utf8_stream_once(&mut self, n: usize, malformed: bool) -> Vec<u8> {
         let mut s = Vec::new();
         for _ in 0..n {
             let c = match self.rng.below(12) {
@@ -1502,7 +1553,7 @@ fn corners(g: &mut Gen) -> Vec<Case> {
 /// choose canvas and view for a text case from the size the text's own layout reports
 fn place_text(g: &mut Gen, mut c: Case) -> Option<Case> {
     let ctx = c.ctx();
-    let ct = BoxConstraint::loose(Size::new(c.max_h, c.max_w));
+    let ct = c.ct();
     let is_str = c.op == "str";
     let size = guarded(|| {
         let mut store = ViewLayoutStore::new();
@@ -1519,7 +1570,8 @@ fn place_text(g: &mut Gen, mut c: Case) -> Option<Case> {
         return None;
     }
     c.loose_view = g.rng.chance(1, 5);
-    let (vh, vw) = if c.loose_view { (size.height + g.rng.below(3) as usize, size.width + g.rng.below(3) as usize) } else { (size.height, size.width) };
+    let (vh, vw) = (c.pos.0 + size.height, c.pos.1 + size.width);
+    let (vh, vw) = if c.loose_view { (vh + g.rng.below(3) as usize, vw + g.rng.below(3) as usize) } else { (vh, vw) };
     let (h, w, steps) = g.view_of(vh, vw);
     c.h = h;
     c.w = w;
@@ -1535,6 +1587,12 @@ fn main() {
     }
     let mut ctx = Ctx { out, pending: vec![], out_dir: cfg.outdir.clone() };
     let mut scratch: Option<Box<Ctx>> = None;
+    // the command automaton of `TTYCommandDecoder`, dumped from the implementation, for the `ttys` requests
+    {
+        let cmd_tag = |c: &TerminalCommand| format!("item:{c:?}").replace(' ', "_");
+        let cd = surf_n_term::decoder::verif_c04::command_dfa();
+        ctx.out.corr(&format!("c09 table command {}", dumps::show_table(&cd, cmd_tag)), &format!("ok {}", cd.len()));
+    }
     if let Some(replay) = &cfg.replay {
         if let Some(case) = Case::from_json(&replay["failure"]["input"]) {
             ctx.run(&case, &mut scratch);
@@ -1572,6 +1630,10 @@ fn main() {
         if i % 2 == 0 {
             c.op = "tlayout".into();
             c.max_h = *g.rng.pick(&[usize::MAX, 1000, 3]);
+            if g.rng.chance(1, 3) {
+                c.min_h = g.rng.below(c.max_h.min(6) as u64 + 1) as usize;
+                c.min_w = g.rng.below(c.max_w.min(14) as u64 + 1) as usize;
+            }
         }
         ctx.run(&c, &mut scratch);
     }
@@ -1631,6 +1693,26 @@ fn main() {
         c.glyphs = g.rng.chance(1, 2);
         c.wraps = c.op == "str" || g.rng.chance(2, 3);
         c.max_w = 1 + g.rng.below(12) as usize;
+        match g.rng.below(10) {
+            // tight constraint
+            0 | 1 => {
+                c.max_h = 1 + g.rng.below(8) as usize;
+                c.min_h = c.max_h;
+                c.min_w = c.max_w;
+            }
+            // non-zero minimum below the maximum
+            2 | 3 => {
+                c.min_h = g.rng.below(5) as usize;
+                c.min_w = g.rng.below(c.max_w as u64 + 1) as usize;
+                if g.rng.chance(1, 3) {
+                    c.max_h = c.min_h + g.rng.below(4) as usize;
+                }
+            }
+            _ => {}
+        }
+        if g.rng.chance(1, 4) {
+            c.pos = (g.rng.below(3) as usize, g.rng.below(4) as usize);
+        }
         let n = 1 + g.rng.below(20) as usize;
         c.cells = if c.op == "str" { g.cells(n, i % 7 == 0, c.ppc).into_iter().filter(|x| matches!(x.k, K::Ch(_))).map(|x| C { k: x.k, f: F0 }).collect() } else { g.cells(n, i % 7 == 0, c.ppc) };
         // long fallback strings (longer than the width)
@@ -1647,20 +1729,42 @@ fn main() {
     }
 
     // a `Text` as the sink of `utf8_writer()`: the cells collected do not depend on the partition
-    for _ in 0..60 * scale {
+    for n_case in 0..60 * scale {
         let n = 1 + g.rng.below(8) as usize;
-        let bytes = g.utf8_stream(n, false);
+        let bytes = g.utf8_stream(n, n_case % 6 == 5);
         let parts = g.partitions(bytes.len(), 8, 10);
+        let tface = g.face();
+        let wraps = g.rng.chance(1, 2);
+        let widths = {
+            let s = String::from_utf8_lossy(&bytes).to_string();
+            widths_tok(s.chars().filter(|c| *c != '\u{fffd}'))
+        };
         let mut first: Option<Vec<Cell>> = None;
-        for part in &parts {
+        for (i, part) in parts.iter().enumerate() {
+            let chunks = split(&bytes, part);
             let mut text = Text::new();
+            text.set_wraps(wraps);
+            text.set_face(tface.face());
+            let mut results = Vec::new();
             {
                 let mut uw = (&mut text).utf8_writer();
-                for chunk in split(&bytes, part) {
-                    let _ = uw.write(&chunk);
+                for chunk in &chunks {
+                    let r = uw.write(chunk);
+                    results.push(matches!(r, Ok(n) if n == chunk.len()));
+                    if r.is_err() {
+                        break;
+                    }
                 }
             }
             let cells = text.cells().to_vec();
+            if i < 2 || i + 1 == parts.len() {
+                let sent = sentinel();
+                let shown = if cells.is_empty() { "-".to_string() } else { cells.iter().map(|c| cell_tok(c, &sent)).collect::<Vec<_>>().join(",") };
+                ctx.out.corr(
+                    &format!("c09 tsink {} {} {} {}", widths, wraps as u8, tface.tok(), chunks_tok(&chunks)),
+                    &format!("{} {}", results.iter().map(|r| if *r { "ok" } else { "err" }).collect::<Vec<_>>().join(","), shown),
+                );
+            }
             ctx.out.case(&format!("textsink {} {:?}", hex(&bytes), part), part.len() >= 2);
             match &first {
                 None => first = Some(cells),
